@@ -263,3 +263,25 @@ Definition lz_name (bs : bytes) : option bytes :=
        end.
 Definition lz_seq (bs : bytes) : bytes := firstnN (lz_lseq bs) (unpack_bases (lz_seq_raw bs)).
 Definition lz_qual (bs : bytes) : bytes := dec_qual (lz_qual_raw bs).
+
+(* ---- record/sequence/iter.rs::Iter::new(bases, start, end) (as repaired in /repo e98d36d),
+   the bases it yields: front half-byte, whole bytes, back half-byte.  Subsequence::iter of
+   Sequence::split_at_checked calls it with the whole packed sequence and [start, end).
+   (bases[i..j] panics for j beyond the buffer; Subsequence is only built with end <= len, the
+   model's sliceN just truncates there.) ---- *)
+Definition hi_base (b : N) : N := nth_base ((b / 16) mod 16).
+Definition lo_base (b : N) : N := nth_base (b mod 16).
+
+Definition sub_iter (packed : bytes) (start end_ : N) : bytes :=
+  let win := if start <? end_ then sliceN (start / 2) ((end_ + 1) / 2 - start / 2) packed else [] in
+  let wb := if end_ mod 2 =? 0 then (win, [])
+            else match split_last win with
+                 | Some (w, n) => (w, [hi_base n])
+                 | None => (win, [])
+                 end in
+  let wf := if start mod 2 =? 0 then (fst wb, [])
+            else match fst wb with
+                 | n :: w => (w, [lo_base n])
+                 | [] => (fst wb, [])
+                 end in
+  snd wf ++ unpack_bases (fst wf) ++ snd wb.
